@@ -90,6 +90,7 @@ type Ctx struct {
 	// observation gaps (see Observe)
 	gaps    bool
 	gapLeft int
+	gapMax  int
 	// OnCall, if set, runs at every Begin BEFORE the new call is recorded, so
 	// a Fail raised inside it is attributed to the call that just returned
 	// (C17's per-call output monitor on workloads written for other properties).
@@ -143,7 +144,11 @@ func (c *Ctx) State(h uint64) {
 // (lazy deletion, memoised views) behaves perfectly under a monitor that
 // observes after every call; the gaps let several mutating calls run back to
 // back, as ordinary callers do, before the next observation.
-func (c *Ctx) SetGaps(on bool) { c.gaps = on; c.gapLeft = 0 }
+func (c *Ctx) SetGaps(on bool) { c.gaps = on; c.gapLeft = 0; c.gapMax = 5 }
+
+// SetGapMax widens the gaps (up to max-1 mutating calls between observations)
+// and switches gapped observation on.
+func (c *Ctx) SetGapMax(max int) { c.gaps = true; c.gapMax = max }
 
 // Observe reports whether the monitor should run its observers now. The
 // models are updated on every call regardless; return values of the calls
@@ -157,7 +162,7 @@ func (c *Ctx) Observe() bool {
 		c.St.Counters["obs:skipped-by-observation-gap"]++
 		return false
 	}
-	c.gapLeft = c.R.Intn(5)
+	c.gapLeft = c.R.Intn(c.gapMax)
 	return true
 }
 
